@@ -59,9 +59,9 @@ class Meta(object):
         self.extinction_law = gen.law_object(law)
 
 
-def build_info(rec, model_names, meta, sort=True):
+def build_info(rec, model_names, meta, sort=True, source=None):
     from sedfitter.fit_info import FitInfo
-    info = FitInfo(gen.source_object(rec['source']))
+    info = FitInfo(gen.source_object(rec['source']) if source is None else source)
     n = len(rec['chi2'])
     info.chi2 = np.array(rec['chi2'], dtype=float)
     info.av = np.array(rec['av'], dtype=float)
@@ -126,6 +126,36 @@ def write_fit_file(path, infos):
     for info in infos:
         fout.write(info)
     fout.close()
+
+
+def write_fit_file_reusing(path, recs, model_names, meta, upto=None):
+    """ONE Source object serves every record: before each fit it is given the next name / photometry (attributes re-assigned,
+    or the arrays edited in place), as in a loop that perturbs the photometry of a source and writes each result right
+    away.  -> bit-exact snapshots taken at the time of each write."""
+    from sedfitter.fit_info import FitInfoFile
+    fout = FitInfoFile(path, 'w')
+    shared, snaps = None, []
+    try:
+        for i, rec in enumerate(recs if upto is None else recs[:upto]):
+            fresh = gen.source_object(rec['source'])
+            if shared is None:
+                shared = fresh
+            else:
+                shared.name, shared.x, shared.y = fresh.name, fresh.x, fresh.y
+                in_place = i % 2 == 0 and all(getattr(shared, k).dtype == getattr(fresh, k).dtype and
+                                              getattr(shared, k).shape == getattr(fresh, k).shape for k in ('valid', 'flux', 'error'))
+                if in_place:
+                    shared.valid[:] = fresh.valid
+                    shared.flux[:] = fresh.flux
+                    shared.error[:] = fresh.error
+                else:
+                    shared.valid, shared.flux, shared.error = fresh.valid, fresh.flux, fresh.error
+            info = build_info(rec, model_names, meta, source=shared)
+            fout.write(info)
+            snaps.append(snapshot(info))
+    finally:
+        fout.close()
+    return snaps
 
 
 def read_fit_file(path):
